@@ -216,7 +216,9 @@ func TestVerifC10Persist(t *testing.T) {
 	r.Bounds["hooks"] = "InterceptAddrDial, InterceptAccept per probe; InterceptPeerDial, InterceptSecured(in/out) per peer P,Q,R; List*"
 
 	if p := vrep.ReplayPath(); p != "" {
-		c10ReplayPersist(t, r, u, au, p)
+		if s, _ := vrep.Shard(); s == 0 {
+			c10ReplayPersist(t, r, u, au, p)
+		}
 		return
 	}
 
